@@ -148,6 +148,8 @@ type Letter struct {
 	// Apply computes the expected reply of a W letter from the model and applies its effect.
 	// nil reply = none expected (noreply).
 	Apply func(md *Model, ts uint32) *Reply
+	// CoreOnly letters are too long to be cut at every byte: they appear only in the whole-delivery core scripts.
+	CoreOnly bool
 }
 
 func lineReply(s string) *Reply { return &Reply{Kind: "line", Line: s} }
@@ -212,6 +214,10 @@ func protoAlphabet() []Letter {
 	al = append(al, setLetter("set-b-rev1-big", "set", "b", 0, 1, big+"r", false, ""))
 	al = append(al, setLetter("set-b-big", "set", "b", 0, 0, big, false, ""))
 	al = append(al, setLetter("set-b-text600", "set", "b", 0, 0, text600, false, "")) // stored compressed, compressed copy C-allocated
+	// above the two-stage compression threshold (10240 bytes): a trial compression of the head, then the whole body
+	t11k := setLetter("set-a-text11k", "set", "a", 0, 0, strings.Repeat(text600, 19)[:11000], false, "")
+	t11k.CoreOnly = true
+	al = append(al, t11k)
 	al = append(al, setLetter("set-a-num", "set", "a", store.FLAG_INCR, 0, "10", false, ""))
 	w("delete-a", "delete a\r\n", func(md *Model, ts uint32) *Reply { return lineReply(md.Delete("a", ts)) })
 	w("delete-b-noreply", "delete b noreply\r\n", func(md *Model, ts uint32) *Reply { md.Delete("b", ts); return nil })
@@ -284,7 +290,7 @@ type protoRun struct {
 
 func cfgProto() *store.VerifCfg {
 	return &store.VerifCfg{Name: "proto", NumBucket: 1, TreeHeight: 3, DataFileMax: 64 << 10, SplitCap: 1024, BufIOCap: 4096,
-		BodyMax: 1 << 10, BodyInC: 64, MaxReq: 3}
+		BodyMax: 12 << 10, BodyInC: 64, MaxReq: 3}
 }
 
 type protoOutcome struct {
